@@ -644,10 +644,12 @@ PROPS.update({
         "campaigns": {
             "quick": [{"name": "blk-overload", "args": ["cases=250", "maxops=60", "overload=1", "watchdog=60"]},
                       {"name": "blk-overload-nodel", "args": ["cases=100", "maxops=60", "overload=1", "nodel=1", "watchdog=60"]},
-                      {"name": "blk-reinsertion", "args": ["cases=60", "maxops=120", "overload=1", "reins=1", "watchdog=60"]}],
+                      {"name": "blk-reinsertion", "args": ["cases=60", "maxops=120", "overload=1", "reins=1", "watchdog=60"]},
+                      {"name": "blk-invalid", "args": ["cases=6", "invalid=1", "watchdog=60"]}],
             "thorough": [{"name": "blk-overload", "args": ["cases=6000", "maxops=100", "overload=1", "watchdog=60"]},
                          {"name": "blk-overload-nodel", "args": ["cases=3000", "maxops=100", "overload=1", "nodel=1", "watchdog=60"]},
-                         {"name": "blk-reinsertion", "args": ["cases=400", "maxops=160", "overload=1", "reins=1", "watchdog=60"]}],
+                         {"name": "blk-reinsertion", "args": ["cases=400", "maxops=160", "overload=1", "reins=1", "watchdog=60"]},
+                         {"name": "blk-invalid", "args": ["cases=60", "invalid=1", "watchdog=60"]}],
         },
         "nontrivial": r"bev=\S*pick:",
         "rule": "the real HybridCache / block engine on a 4-8 block device (16 KiB blocks: about 3 entries per block) under "
